@@ -126,6 +126,15 @@ func VHNextStep() {
 func VHVisitedFns() {
 	w := vNewWorld(1, false)
 	w.vStep()
+	// another dialogue of the same process with other counts: what it counts is its own business
+	if vChoose("other.runner", 2) == 1 {
+		other := vBaseRunner(variable.NewInMemoryStorer())
+		for _, t := range w.titles {
+			other.visitedNodes[t] = w.dr.visitedNodes[t] + 1
+		}
+		other.visitedNodes["zz"] = 1
+		vReach("other-runner")
+	}
 	w.vCheckVisitedFunctions()
 }
 
@@ -146,6 +155,65 @@ func VHNextFaults() {
 	vAssert(!panicked, "the runner remains usable after any outcome")
 }
 
+// VHVisitsAcrossRestore (C11): counts are unaffected by anything but jumps and restores: after restoring an
+// arbitrary snapshot into a runner with another history the functions report the snapshot's counts, and
+// after the jump that follows, the count of the node left is one more (unless it is not tracked).
+func VHVisitsAcrossRestore() {
+	w := vNewWorld(0, false)
+	dr := w.dr
+	w.nodes[1].Statements[0] = &tree.Statement{JumpStatement: &tree.JumpStatement{Expression: vValExpr(variable.NewString("n2"))}}
+	s := &Snapshot{CurrentNode: "n1", Variables: map[string]variable.Value{}, VisitedNodes: map[string]int{}}
+	for i := 0; i < 3; i++ {
+		if vChoose("snap.visited"+vItoa(i), 2) == 1 {
+			c := vInt("snap.visited" + vItoa(i) + ".count")
+			vAssume(vAnd(c >= 1, c < 1<<40))
+			// no history gives a node that is never tracked a count: snapshots holding one are outside the claim
+			vAssume(w.tracked(w.titles[i]))
+			s.VisitedNodes[w.titles[i]] = c
+		}
+	}
+	want := map[string]int{}
+	for k, v := range s.VisitedNodes {
+		want[k] = v
+	}
+	if dr.RestoreAt(s) != nil {
+		vAssume(false)
+	}
+	names := []string{"n0", "n1", "n2", "zz"}
+	check := func(what string) {
+		for _, name := range names {
+			cnt, vis := vScriptVisits(dr, name)
+			ci, exact := vExactInt(cnt)
+			vAssert(exact && ci == want[name], "visited_count "+what)
+			vAssert(vis == (want[name] > 0), "visited "+what)
+		}
+	}
+	check("after a restore is the snapshot's count")
+	var el *DialogueElement
+	var err error
+	panicked := vTry(func() { el, err = dr.Next(vInt("choice.after.restore")) })
+	vAssert(!panicked && err == nil && el != nil && el.Node == "n2", "the restored runner runs the node's jump")
+	if w.tracked("n1") {
+		want["n1"]++
+		vReach("tracked-after-restore")
+	} else {
+		vReach("untracked-after-restore")
+	}
+	check("after a restore and a jump counts that jump")
+}
+
+// vScriptVisits: visited_count(name) and visited(name) as a script of runner dr sees them.
+func vScriptVisits(dr *DialogueRunner, name string) (float64, bool) {
+	cnt, err := dr.functionStorer.call("visited_count", []*variable.Value{variable.NewString(name)})
+	vAssert(err == nil && vKind(cnt) == 0, "visited_count returns a number")
+	vis, err2 := dr.functionStorer.call("visited", []*variable.Value{variable.NewString(name)})
+	vAssert(err2 == nil && vKind(vis) == 1, "visited returns a boolean")
+	if err != nil || err2 != nil || vKind(cnt) != 0 || vKind(vis) != 1 {
+		vAssume(false)
+	}
+	return *cnt.Number, *vis.Boolean
+}
+
 // vCheckVisitedFunctions (C11): visited / visited_count as scripts see them.
 func (w *vWorld) vCheckVisitedFunctions() {
 	names := []string{"n0", "n1", "n2", "zz"}
@@ -158,7 +226,8 @@ func (w *vWorld) vCheckVisitedFunctions() {
 	if c, ok := w.dr.visitedNodes[name]; ok {
 		want = c
 	}
-	vAssert(*cnt.Number == float64(want), "visited_count(n) is the visit count")
+	ci, exact := vExactInt(*cnt.Number)
+	vAssert(exact && ci == want, "visited_count(n) is the visit count")
 	vAssert(*vis.Boolean == (want > 0), "visited(n) iff the count is positive")
 	if name == "zz" {
 		vAssert(*cnt.Number == 0 && !*vis.Boolean, "names that are not nodes count 0")
